@@ -53,10 +53,14 @@ def _terms(fn):
     return lp, acc_loop, acc_close
 
 
+_PROG = [None]
+
+
 def check(run):
     prog = Program()
     prog.load(FILE)
     prog.link()
+    _PROG[0] = prog
     run.use_file(FILE)
     run.explanation = (
         'Decides structural necessary conditions of C17 on AxisymmetricVoxel and the voxel collection: (R1) in the area and centroid '
@@ -433,18 +437,45 @@ def _r2(run, ci):
     else:
         run.fail('C17-R2', K + 'lookup', ci.mod.relpath, l2.lineno, 'triangle chosen by %s with total_area = %s' % (look, defs.get('total_area')))
     run.subject('C17-R2')
-    pts = {k: v[-1] for k, v in defs.items() if k.endswith('_p')}
-    idx = {k: v[-1] for k, v in defs.items() if k.endswith('_i')}
-    okp = True
-    for k in (1, 2, 3):
-        vi, vp = 'v%d_i' % k, 'v%d_p' % k
-        if idx.get(vi) != 'self._triangles[tri_index, %d]' % (k - 1) or pts.get(vp) != 'new_point3d(self._vertices[%s, 0], 0.0, self._vertices[%s, 1])' % (vi, vi):
-            okp = False
-    sp = defs.get('sample_point', [None])[-1]
-    if okp and sp == 'point_triangle(v1_p, v2_p, v3_p)':
+    # the sample is drawn inside the chosen triangle: point_triangle of its three corners (r, 0, z), corner k being vertex
+    # triangles[tri_index, k] -- decided on the values (helpers expanded, locals substituted in statement order), whatever the names
+    import copy as _copy
+    try:
+        from ..inline import flatten as _flatten, class_lookup as _class_lookup
+        f2 = _flatten(fn, _class_lookup(_PROG[0], ci)) if _PROG[0] is not None else fn
+    except Exception:
+        f2 = fn
+    env_ = {}
+
+    class _S(ast.NodeTransformer):
+        def visit_Name(self, n):
+            return _copy.deepcopy(env_[n.id]) if n.id in env_ and isinstance(n.ctx, ast.Load) else n
+    loops2 = [l for l in ast.walk(f2) if isinstance(l, ast.For) and any(isinstance(c, ast.Call) and dotted(c.func) == 'point_triangle' for c in ast.walk(l))]
+    sp_val = None
+
+    def _seq(stmts):
+        nonlocal sp_val
+        for st in stmts:
+            if isinstance(st, ast.Assign) and len(st.targets) == 1 and isinstance(st.targets[0], ast.Name):
+                v_ = _S().visit(_copy.deepcopy(st.value))
+                if isinstance(v_, ast.Call) and dotted(v_.func) == 'point_triangle':
+                    sp_val = v_
+                if st.targets[0].id != 'tri_index' and not (isinstance(st.value, ast.Call) and dotted(st.value.func) in ('find_index', 'uniform')):
+                    env_[st.targets[0].id] = v_
+            elif isinstance(st, (ast.If, ast.For, ast.While)):
+                for b_ in (st.body, st.orelse):
+                    _seq(b_)
+    if loops2:
+        _seq(loops2[0].body)
+    want_ = ['new_point3d(self._vertices[self._triangles[tri_index, %d], 0], 0.0, self._vertices[self._triangles[tri_index, %d], 1])' % (k, k) for k in range(3)]
+    got_ = [norm(a) for a in sp_val.args] if sp_val is not None else None
+    if got_ == want_:
         run.ok('C17-R2', 'sample inside the chosen triangle', 'point_triangle of the three vertices (r, 0, z) of triangle tri_index')
+    elif got_ is not None and len(got_) == 3 and all(g.startswith('new_point3d(') for g in got_):
+        run.fail('C17-R2', K + 'sample-vertices', ci.mod.relpath, l2.lineno, 'the sample is drawn in the triangle with corners %s; documented: corner k is '
+                 '(r, 0, z) of vertex triangles[tri_index, k]' % [g[:70] for g in got_])
     else:
-        run.fail('C17-R2', K + 'sample-vertices', ci.mod.relpath, l2.lineno, 'sample point built from %s / %s / %s' % (idx, pts, sp))
+        run.undecided('C17-R2', 'sample inside the chosen triangle', 'corners not resolved: %s' % (got_ and [g[:40] for g in got_]))
     run.subject('C17-R2')
     acc = [s for s in l2.body if isinstance(s, ast.AugAssign) and norm(s.target) == 'emissivity']
     div = [s for s in fn.body if isinstance(s, ast.AugAssign) and isinstance(s.op, ast.Div) and norm(s.target) == 'emissivity']
